@@ -14,33 +14,38 @@ NodePerms == Bijections(Node)
 HRelabel(f, G) == {{f[n] : n \in e} : e \in G}
 Orders == {k \in {3, 4} : k <= Cardinality(Node)}
 
-(* ---- constant-level facts ---------------------------------------------- *)
-ASSUME ClassCount3 == Cardinality(Classes(3)) = 6
-ASSUME ClassCount4 == Cardinality(Classes(4)) = 171 /\ Cardinality(ConnPatterns(4)) = 1990
-\* the classes partition the connected labelled patterns (so "the class of a pattern" is well defined,
-\* and connectedness is a property of the class)
-ASSUME ClassesPartition == \A k \in {3, 4} :
-   LET Sz(c) == Cardinality(c) IN
-   /\ UNION Classes(k) = ConnPatterns(k)
-   /\ SumSet(Sz, Classes(k)) = Cardinality(ConnPatterns(k))
-\* the cached tables are the definitions
-ASSUME TablesAreDefinitions == Classes3 = Classes(3) /\ Classes4 = Classes(4)
+(* ---- constant-level facts (those about undirected patterns are evaluated in the "hg" runs, ---- *)
+(* ---- those about the directed encoding in the "dir" runs)                                  ---- *)
+\* 6 and 171 classes; the classes partition the connected labelled patterns (so "the class of a
+\* pattern" is well defined and connectedness is a property of the class); the cached tables of
+\* Motifs.tla are the definitions
+ClassFacts(k, nclasses, npatterns) ==
+   LET cls == Classes(k)  cp == ConnPatterns(k) IN
+   /\ Cardinality(cls) = nclasses /\ Cardinality(cp) = npatterns
+   /\ UNION cls = cp
+   /\ \A c1, c2 \in cls : (c1 # c2) => (c1 \cap c2 = {})
+   /\ cls = ClassSet(k)
+   /\ \A P \in cp : P \in ClassTab(k)[P]
+ASSUME ClassCount3 == Kind = "hg" => ClassFacts(3, 6, 12)
+ASSUME ClassCount4 == Kind = "hg" => ClassFacts(4, 171, 1990)
 
-\* every directed hyperedge over 1..k / every directed pattern with at most two hyperedges over 1..4
-DEdgeU(k) == {p \in (SUBSET (1..k) \ {{}}) \X (SUBSET (1..k) \ {{}}) : p[1] \cap p[2] = {}}
+\* every directed pattern with one or two hyperedges over 1..4
 SmallDPatterns == {{e, g} : e, g \in DEdgeU(4)}
-ASSUME DEdgeCount == Cardinality(DEdgeU(3)) = 12 /\ Cardinality(DEdgeU(4)) = 50
-\* the order on encoded hyperedges is a strict total order
-ASSUME EdgeOrderTotal == \A e, g \in DEdgeU(4) :
+ASSUME DEdgeCount == Kind = "dir" => Cardinality(DEdgeU(3)) = 12 /\ Cardinality(DEdgeU(4)) = 50
+\* the order on encoded hyperedges is a strict total order, and the integer codes follow it
+ASSUME EdgeOrderTotal == Kind = "dir" => \A e, g \in DEdgeU(4) :
    /\ ~(EdgeLess(e, g) /\ EdgeLess(g, e))
    /\ (e # g) => (EdgeLess(e, g) \/ EdgeLess(g, e))
-   /\ ~EdgeLess(e, e)
-ASSUME EdgeOrderTransitive == \A e, g, h \in DEdgeU(3) : (EdgeLess(e, g) /\ EdgeLess(g, h)) => EdgeLess(e, h)
-\* one and only one canonical pattern in the orbit of every small pattern on 4 nodes; Canon is constant on orbits
-ASSUME CanonUniqueSmall4 == \A P \in SmallDPatterns :
+ASSUME EdgeOrderTransitive == Kind = "dir" =>
+   \A e, g, h \in DEdgeU(3) : (EdgeLess(e, g) /\ EdgeLess(g, h)) => EdgeLess(e, h)
+ASSUME CodeOrderIsTupleOrder == Kind = "dir" => \A k \in {3, 4} : \A e, g \in DEdgeU(k) :
+   EdgeLess(e, g) <=> (EdgeCode(e, k) < EdgeCode(g, k))
+\* exactly one pattern with a minimal encoding in the orbit of every 1- or 2-hyperedge pattern on 4 nodes
+\* (1275 patterns); IsCanonical singles it out and agrees with the definition
+ASSUME CanonUniqueSmall4 == Kind = "dir" => \A P \in SmallDPatterns :
    LET orb == DOrbit(P, 4) IN
    /\ Cardinality({Q \in orb : IsCanonical(Q, 4)}) = 1
-   /\ \A Q \in orb : \A R \in orb : (Q # R) => (PatLess(Q, R) \/ PatLess(R, Q))
+   /\ IsCanonical(P, 4) <=> IsCanonicalDef(P, 4)
 
 (* ---- invariants over the reachable hypergraphs ("hg") -------------------- *)
 CensusRelabelInvariant == \A k \in Orders : \A f \in NodePerms :
@@ -52,8 +57,8 @@ CensusIgnoresSingletons == \A k \in Orders :
    CensusNZ({e \in Hg : Cardinality(e) >= 2}, Node, k) = CensusNZ(Hg, st.nodes, k)
 \* Census is CensusNZ completed by zeros, and its total is the number of connected k-subsets
 CensusTotal == \A k \in Orders :
-   LET c == Census(Hg, Node, k)  nz == CensusNZ(Hg, Node, k)  V(x) == c[x] IN
-   /\ SumSet(V, DOMAIN c) = Cardinality(ConnSets(Hg, Node, k))
+   LET c == Census(Hg, Node, k)  nz == CensusNZ(Hg, Node, k)  V(x) == nz[x] IN
+   /\ SumSet(V, DOMAIN nz) = Cardinality(ConnSets(Hg, Node, k))
    /\ \A x \in DOMAIN c : c[x] = IF x \in DOMAIN nz THEN nz[x] ELSE 0
 \* the three passes of the enumeration reach every counted subset; what is left to the walk on the
 \* 2-node hyperedges shows 2-node hyperedges only (so classifying it by them alone is right)
@@ -72,8 +77,8 @@ DP == DPattern(Dg, Node)                    \* Node = 1..n, so this is the hyper
 DirCanonUnique == LET k == Cardinality(Node) IN Cardinality({Q \in DOrbit(DP, k) : IsCanonical(Q, k)}) = 1
 DirCanonRelabelInvariant == LET k == Cardinality(Node) IN
    \A f \in Perms(k) : Canon(DRelabel(f, DP), k) = Canon(DP, k)
-DirOrderTotalOnOrbit == LET k == Cardinality(Node) IN
-   \A Q, R \in DOrbit(DP, k) : (Q # R) => (PatLess(Q, R) # PatLess(R, Q))
+\* the integer form of "is canonical" is the definition (order of the nested sorted tuples)
+DirCanonIsDefinition == LET k == Cardinality(Node) IN IsCanonical(DP, k) <=> IsCanonicalDef(DP, k)
 DirCensusIgnoresLarge == \A k \in 2..Cardinality(Node) : \A S \in KSubsets(Node, k) :
    DPattern({e \in Dg : Cardinality(DNodes(e)) <= k}, S) = DPattern(Dg, S)
 =============================================================================
